@@ -855,16 +855,45 @@ func (c *Ctx) ruleP2() {
 			c.ok("P2", "key:"+k, puts[k][0].pos, fmt.Sprintf("%d writer(s), %d reader(s)", len(puts[k]), len(gets[k])))
 		}
 	}
-	hasCall := func(f *ssa.Function, pred func(ssa.CallInstruction) bool) bool {
-		found := false
-		for _, g := range withClosures(topLevel(f)) {
+	// a function plays a role (load path, exchange, write path, merge path) when it, a
+	// function it calls, or — for a small helper that only reads or writes the key — one of
+	// its callers (two levels) makes the call that defines the role
+	var callersOf func(f *ssa.Function, depth int, seen map[*ssa.Function]bool) []*ssa.Function
+	callersOf = func(f *ssa.Function, depth int, seen map[*ssa.Function]bool) []*ssa.Function {
+		var out []*ssa.Function
+		if depth > 2 || seen[f] {
+			return out
+		}
+		seen[f] = true
+		for _, g := range c.RepoFns {
+			if c.isTestFile(g.Pos()) || c.isControlFn(g) {
+				continue
+			}
+			calls := false
 			eachCall(g, func(call ssa.CallInstruction) {
-				if pred(call) {
-					found = true
+				if call.Common().StaticCallee() == f {
+					calls = true
 				}
 			})
+			if calls {
+				t := topLevel(g)
+				out = append(out, t)
+				out = append(out, callersOf(t, depth+1, seen)...)
+			}
 		}
-		return found
+		return out
+	}
+	hasCall := func(f *ssa.Function, pred func(ssa.CallInstruction) bool) bool {
+		t := topLevel(f)
+		if c.reachesCall(t, pred, 0, map[*ssa.Function]bool{}) {
+			return true
+		}
+		for _, g := range callersOf(t, 0, map[*ssa.Function]bool{}) {
+			if c.reachesCall(g, pred, 0, map[*ssa.Function]bool{}) {
+				return true
+			}
+		}
+		return false
 	}
 	isFetch := func(call ssa.CallInstruction) bool { return calleeFull(call) == logMod+".NewFromEntryHash" }
 	isSend := func(call ssa.CallInstruction) bool {
@@ -915,7 +944,7 @@ func (c *Ctx) ruleP2() {
 		if c.isTestFile(f.Pos()) || f.Parent() != nil || c.isControlFn(f) {
 			continue
 		}
-		if !hasCall(f, isFetch) || f.Pkg.Pkg.Path() != repoMod+"/stores/basestore" {
+		if f.Pkg.Pkg.Path() != repoMod+"/stores/basestore" || !c.reachesStatic(f, isFetch, 0) {
 			continue
 		}
 		eachCall(f, func(call ssa.CallInstruction) {
@@ -934,6 +963,14 @@ func (c *Ctx) ruleP2() {
 							}
 						}
 					}
+					// or handed to a method / function that does the fetch
+					if h := fc.Common().StaticCallee(); h != nil && h.Blocks != nil && h.Pkg == f.Pkg && c.reachesStatic(h, isFetch, 0) {
+						for _, a := range fc.Common().Args {
+							if d[a] {
+								fed = true
+							}
+						}
+					}
 				})
 			}
 			cons := fnKey(f) + "→Get(" + k + ")→fetch"
@@ -944,6 +981,32 @@ func (c *Ctx) ruleP2() {
 			}
 		})
 	}
+}
+
+// reachesStatic: f, its function literals or a statically called function of the same package
+// (three levels) makes a call satisfying pred.
+func (c *Ctx) reachesStatic(f *ssa.Function, pred func(ssa.CallInstruction) bool, depth int) bool {
+	if f == nil || f.Blocks == nil || depth > 3 {
+		return false
+	}
+	found := false
+	for _, g := range withClosures(f) {
+		eachCall(g, func(call ssa.CallInstruction) {
+			if found {
+				return
+			}
+			if pred(call) {
+				found = true
+				return
+			}
+			if h := call.Common().StaticCallee(); h != nil && h.Pkg == f.Pkg && h != f && topLevel(h) != f {
+				if c.reachesStatic(h, pred, depth+1) {
+					found = true
+				}
+			}
+		})
+	}
+	return found
 }
 
 // ---------------------------------------------------------------------------
